@@ -11,7 +11,8 @@ CONSTANTS Measured       \* RTMR indices the event log has events for (the sampl
 
 VFaults == {"none", "qsigOtherKey", "poolB", "wrongCN", "bindWrongHash", "qeSignerForeign", "revokedLeaf", "intelNilPool", "intelEmptyPool"}
 \*   intel*: the genuine sample quote (Intel's chain) with no pool given (the embedded Intel root applies) / with an empty pool (nothing is trusted)
-Logs == {"sample", "empty", "nil"}                  \* the event log handed in: the sample log, zero bytes, nil
+Logs == {"sample", "empty", "nil", "withRtmr3"}     \* the event log handed in: the sample log, zero bytes, nil, the sample log plus an event measured into RTMR3
+MeasuredBy(lgv) == IF lgv = "withRtmr3" THEN Measured \cup {3} ELSE Measured
 Policies == {"ok", "nonceDiffers", "mrTdDiffers", "rtmrExpectDiffers", "minQeAbove", "minTeeLaterAbove"}
 \*   minTeeLaterAbove: the TEE_TCB_SVN minimum is below the quote in an earlier component and above it in a later one
 Priors == {"none", "sameOpts"}   \* sameOpts: the same options value served a successful call on the genuine quote just before
@@ -24,16 +25,16 @@ RegOf(f) == CASE f = "r0" -> 0 [] f = "r1" -> 1 [] f = "r2" -> 2 [] f = "r3" -> 
 VerifyOk(v, lvl, cf) == /\ (v \in {"none", "intelNilPool"} \/ (v = "revokedLeaf" /\ lvl < 2))      \* a revoked leaf is only visible with revocation checking
                         /\ (lvl = 2 => cf = "ok")                                \* an unavailable CRL fails verification: no "fail open"
 PolicyOk(p) == p = "ok"
-ReplayOk(f) == f = "none" \/ RegOf(f) \notin Measured
+ReplayOk(f, lgv) == f = "none" \/ RegOf(f) \notin MeasuredBy(lgv)
 
 \* C18
-MayReturnState(v, p, f, lvl, cf) == VerifyOk(v, lvl, cf) /\ PolicyOk(p) /\ ReplayOk(f)     \* whatever the loader option
+MayReturnState(v, p, f, lvl, cf, lgv) == VerifyOk(v, lvl, cf) /\ PolicyOk(p) /\ ReplayOk(f, lgv)     \* whatever the loader option
 
 VARIABLES v, p, f, lvl, ld, cf, prior, lg, pc, result
 vars == <<v, p, f, lvl, ld, cf, prior, lg, pc, result>>
 Init == /\ v \in VFaults /\ p \in Policies /\ f \in Flips /\ lvl \in Levels /\ ld \in Loaders /\ cf \in CrlFetches
-        /\ prior \in Priors /\ lg \in Logs /\ (lg # "sample" => f = "none" /\ cf = "ok" /\ prior = "none")
-        /\ (v \in {"intelNilPool", "intelEmptyPool"} => lvl = 0 /\ f = "none" /\ cf = "ok" /\ prior = "none")     \* no collateral for the sample platform offline; its registers cannot be altered without re-signing
+        /\ prior \in Priors /\ lg \in Logs /\ (lg \in {"empty", "nil"} => f = "none") /\ (lg # "sample" => cf = "ok" /\ prior = "none")
+        /\ (v \in {"intelNilPool", "intelEmptyPool"} => lvl = 0 /\ f = "none" /\ cf = "ok" /\ prior = "none" /\ lg # "withRtmr3")     \* no collateral for the sample platform offline; its registers cannot be altered without re-signing
         /\ (cf # "ok" => lvl = 2) /\ pc = (IF prior = "none" THEN "verify" ELSE "prior") /\ result = "none"
 \* the earlier call leaves nothing behind in the options value: each call extracts its own register bank
 PriorCall == pc = "prior" /\ pc' = "verify" /\ UNCHANGED <<v, p, f, lvl, ld, cf, prior, lg, result>>
@@ -43,12 +44,12 @@ PolicyGate == /\ pc = "policy" /\ (IF PolicyOk(p) THEN pc' = "bank" /\ result' =
 ExtractBank == /\ pc = "bank" /\ pc' = "replay" /\ UNCHANGED <<v, p, f, lvl, ld, cf, prior, lg, result>>     \* RTMR i -> register i, all four registers
 \* without events there is nothing to replay: what the extraction then returns (a state, an error, or both) is the event-log library's business,
 \* but it happens behind both gates like everything else
-Replay == /\ pc = "replay" /\ (IF lg # "sample" THEN result' \in {"state", "error", "both"} /\ pc' = "done"
-                               ELSE IF ReplayOk(f) THEN result' = "state" /\ pc' = "done" ELSE Fail) /\ UNCHANGED <<v, p, f, lvl, ld, cf, prior, lg>>
+Replay == /\ pc = "replay" /\ (IF lg \in {"empty", "nil"} THEN result' \in {"state", "error", "both"} /\ pc' = "done"
+                               ELSE IF ReplayOk(f, lg) THEN result' = "state" /\ pc' = "done" ELSE Fail) /\ UNCHANGED <<v, p, f, lvl, ld, cf, prior, lg>>
 Next == PriorCall \/ VerifyGate \/ PolicyGate \/ ExtractBank \/ Replay
 Spec == Init /\ [][Next]_vars
 
 TypeOK == result \in {"none", "state", "error", "both"}
-StateOnlyBehindBothGates == result \in {"state", "both"} => MayReturnState(v, p, f, lvl, cf)
-ErrorOtherwise == (pc = "done" /\ lg = "sample") => (result = "state" <=> MayReturnState(v, p, f, lvl, cf))
+StateOnlyBehindBothGates == result \in {"state", "both"} => MayReturnState(v, p, f, lvl, cf, lg)
+ErrorOtherwise == (pc = "done" /\ lg \in {"sample", "withRtmr3"}) => (result = "state" <=> MayReturnState(v, p, f, lvl, cf, lg))
 =================================================================================
